@@ -22,14 +22,14 @@ RULE = (
     "Generator, anonymous TypedDicts at top/list/dict/tuple/defaultdict/nested positions) x every ordered pair "
     "(thorough: also triples) of 17 classes spread over modules utils / pkg.utils / foo / barfoo / pkg.typing / thing.thing / "
     "nest.Outer.Inner / _io / *NoneType* / the target's own class / builtins x target in {tgt, utils} x function kinds; "
-    "state = one rendered module stub, transition = one annotation evaluated in the stub's own namespace and compared "
+    "plus 9 plain user classes named like typing constructs (Union, List, Generator, ...) x {plain, Optional, container of another name, TypedDict field, return} ; state = one rendered module stub, transition = one annotation evaluated in the stub's own namespace and compared "
     "structurally; non-trivial = annotation mentioning a non-builtin class"
 )
 EXPLANATION = "exhaustive bounded enumeration; translation validation of every rendered annotation"
 ASSUMPTIONS = ["no two classes with the same short name in different modules (outside the alphabet)", "k=10 so single TypedDicts are never collapsed"]
 
 COLLIDE = str(VERIF / "fixtures" / "collide")
-LENIENT = ["_priv", "utils", "pkg", "pkg.utils", "pkg.typing", "foo", "barfoo", "thing", "nest", "nonet", "tgt", "_io", "io", "typing", "vfx", "vfx.shapes"]
+LENIENT = ["_priv", "vfx.hidden", "utils", "pkg", "pkg.utils", "pkg.typing", "foo", "barfoo", "thing", "nest", "nonet", "tgt", "_io", "io", "typing", "vfx", "vfx.shapes"]
 
 
 def setup_path() -> None:
@@ -50,6 +50,7 @@ def classes() -> List[Any]:
     import tgt
     import thing
     import utils
+    import vfx.hidden as hidden
 
     return [
         utils.B, pkg.utils.C, pkg.P, foo.Baz, barfoo.Qux, pkg.typing.X, thing.thing, thing.thing.Point, nest.Outer.Inner, nest.Outer.Inner.Deep,
@@ -280,6 +281,7 @@ def run(ctx: Ctx) -> Result:
         return res
 
     res = run_shards(ctx, shard, list(range(nshards)))
+    res.merge(typing_named_family())
     res.obligations.setdefault("saw:typed-dict-class", False)
     res.obligations.setdefault("saw:nontotal", False)
     res.obligations.setdefault("saw:StubIndexBuilder", False)
@@ -287,8 +289,60 @@ def run(ctx: Ctx) -> Result:
     return res
 
 
+def typing_named_cases():
+    import vfx.hidden as H
+
+    out = []
+    for ni, c in enumerate(H.TYPING_NAMED):
+        forms = [("plain", c), ("Optional", Optional[c]), ("td", atd({"fz": c}))]
+        forms.append(("Dict", Dict[str, c]) if c.__name__ != "Dict" else ("List", List[c]))
+        forms.append(("Tuple", Tuple[c, int]) if c.__name__ != "Tuple" else ("Set", Set[c]))
+        for fname, T in forms:
+            out.append((ni, fname, T, c))
+    return out
+
+
+def typing_named_one(ni: int, fname: str):
+    """A user class named like a typing construct, as the only parameter type and as the return type of tgt.f."""
+    from monkeytype.tracing import CallTrace
+    import tgt
+
+    T = [t for n, f, t, _ in typing_named_cases() if (n, f) == (ni, fname)][0]
+    vs = []
+    for as_return in (False, True):
+        tr = CallTrace(tgt.f, {"x1": int if as_return else T}, T if as_return else None, None)
+        exp = [(((), "f"), {"x1": int if as_return else T}, T if as_return else None)]
+        try:
+            text = build([tr])["tgt"]
+        except Exception as e:  # noqa: BLE001
+            vs.append(("exception", "typing-named-class:" + type(e).__name__, f"building/rendering raised {e!r}", ""))
+            continue
+        vs += [(k, "typing-named-class" if not s_.startswith("typed-dict") else s_, m, text) for k, s_, m in check_stub(text, "tgt", tgt, exp, "typing-named-class")]
+    return vs
+
+
+def typing_named_family() -> Result:
+    res = Result()
+    for ni, fname, T, c in typing_named_cases():
+        res.states += 1
+        res.transitions += 2
+        res.evaluations += 2
+        res.validated += 2
+        case = {"family": "typing_named", "class": ni, "form": fname}
+        vs = typing_named_one(ni, fname)
+        for kind, sig, msg, text in vs[:2]:
+            res.violate(Violation(ID, kind, sig, case, msg + "\n--- stub ---\n" + text[:1200]))
+        if not vs:
+            res.nontrivial_n += 1
+            res.oblige("saw:typing-named-class", True)
+    res.obligations.setdefault("saw:typing-named-class", False)
+    return res
+
+
 def replay(case: Dict[str, Any], ctx: Ctx) -> List[Violation]:
     setup_path()
+    if case.get("family") == "typing_named":
+        return [Violation(ID, k, s, case, m) for k, s, m, _ in typing_named_one(case["class"], case["form"])]
     cls, bs, tgs = classes(), builders(), targets()
     tg = tgs[case["target"]]
     try:
